@@ -1,7 +1,7 @@
 (* C18 — Staging and deployment never write outside their target directory.  Property theorems only. *)
 From Coq Require Import String List Bool.
 Import ListNotations.
-Require Import V.Path.Model V.Path.Proofs.
+Require Import V.Path.Model V.Path.Proofs V.Path.Archive.
 Open Scope string_scope.
 
 (* For the SPECIFIED check (every member, and every link target, stays in the destination after
@@ -25,6 +25,15 @@ Theorem C18_staging_confined : forall (d : list string) (ms : list member),
   gooddir d = true -> forall p, In p (stage_extract d ms) -> within d p.
 Proof. exact stage_extract_safe. Qed.
 Print Assumptions C18_staging_confined.
+
+(* No traversal through links: for every archive the repaired check accepts, no member (and no file a
+   hard-link member is linked to) is created through, or on top of, a symbolic link brought by the same
+   archive — the link-following [extract] creates exactly the lexically computed paths
+   normpath(join(destination, name)).  (The archive-side mirror of C18_manifest_no_redirect.) *)
+Theorem C18_archive_no_redirect : forall (d : list string) (ms : list member),
+  gooddir d = true -> tar_check d ms = true -> extract d ms = extract_lexical d ms.
+Proof. exact archive_no_redirect. Qed.
+Print Assumptions C18_archive_no_redirect.
 
 (* copy / link staging: at most one entry, named by the last segment of the source (which contains
    no separator and is not "", "." or ".."), directly under the working directory. *)
